@@ -8,6 +8,7 @@ import (
 	"io"
 	"strconv"
 	"strings"
+	"sync"
 	"testing"
 
 	"github.com/hashicorp/go-bexpr/grammar"
@@ -232,5 +233,98 @@ func TestC19_Dump(t *testing.T) {
 		r.Case(text+"\x00"+c.Indent+strconv.Itoa(c.Level), d >= 3 || quantUnder || rend.PointerSels > 0,
 			map[string]string{"text": c.TextQ, "indent": strconv.Quote(c.Indent), "level": strconv.Itoa(c.Level)},
 			fmt.Sprintf("depth:%d", d), fmt.Sprintf("indent-has-percent:%v", strings.Contains(c.Indent, "%")), fmt.Sprintf("quantifier-under-connective:%v", quantUnder), fmt.Sprintf("pointer-selector:%v", rend.PointerSels > 0))
+	})
+}
+
+// TestC19_Concurrent: one tree (an evaluator's, logged by several request handlers) dumped by 2-8
+// goroutines at the same time with DIFFERENT indent strings and levels, many rounds; every
+// dump is the documented rendering for its own arguments; afterwards the same dumps once more,
+// one after another.
+type c19ConcCase struct {
+	Text   []byte   `json:"text"`
+	TextQ  string   `json:"text_quoted"`
+	Args   []string `json:"indents"`
+	Levels []int    `json:"levels"`
+	Rounds int      `json:"rounds"`
+}
+
+func c19ConcRun(t failer, c *c19ConcCase) {
+	got, err := grammar.Parse("", c.Text)
+	if err != nil {
+		t.Fatalf("harness: %s rejected: %v", c.TextQ, err)
+	}
+	ast := got.(grammar.Expression)
+	want := make([]string, len(c.Args))
+	for i := range c.Args {
+		var sb strings.Builder
+		refDump(&sb, ast, c.Args[i], c.Levels[i])
+		want[i] = sb.String()
+	}
+	var mu sync.Mutex
+	var failures []string
+	var wg sync.WaitGroup
+	start := make(chan struct{})
+	for g := range c.Args {
+		wg.Add(1)
+		go func(g int) {
+			defer wg.Done()
+			<-start
+			for r := 0; r < c.Rounds; r++ {
+				var buf bytes.Buffer
+				ast.ExpressionDump(&buf, c.Args[g], c.Levels[g])
+				if buf.String() != want[g] {
+					mu.Lock()
+					if len(failures) < 3 {
+						failures = append(failures, fmt.Sprintf("goroutine %d round %d (indent %q, level %d):\n%s\n want:\n%s", g, r, c.Args[g], c.Levels[g], buf.String(), want[g]))
+					}
+					mu.Unlock()
+				}
+			}
+		}(g)
+	}
+	close(start)
+	wg.Wait()
+	if len(failures) > 0 {
+		violation(t, "C19", "TestC19_Concurrent", c, "dumps of the tree of %s made at the same time with different arguments differ from the documented rendering:\n%s", c.TextQ, strings.Join(failures, "\n"))
+	}
+	for i := range c.Args {
+		var buf bytes.Buffer
+		ast.ExpressionDump(&buf, c.Args[i], c.Levels[i])
+		if buf.String() != want[i] {
+			violation(t, "C19", "TestC19_Concurrent", c, "after the concurrent dumps, dumping %s with indent %q level %d gives\n%s want:\n%s", c.TextQ, c.Args[i], c.Levels[i], buf.String(), want[i])
+		}
+	}
+}
+
+func init() {
+	replayers["TestC19_Concurrent"] = func(t *testing.T, raw json.RawMessage) {
+		var c c19ConcCase
+		if err := json.Unmarshal(raw, &c); err != nil {
+			t.Fatalf("bad case: %v", err)
+		}
+		for i := 0; i < 20; i++ {
+			c19ConcRun(t, &c)
+		}
+		t.Logf("replay ok")
+	}
+}
+
+func TestC19_Concurrent(t *testing.T) {
+	r := rec(t, "C19", c19Rule+"; TestC19_Concurrent: one tree dumped by 2-8 goroutines at once with different (indent, level), 50-2000 rounds, then sequentially; non-trivial = >= 3 distinct argument pairs")
+	rapid.Check(t, func(t *rapid.T) {
+		e := gen.FreeExpr(t, rapid.IntRange(0, 3).Draw(t, "depth"))
+		rend := bx.NewRenderer(chooser(t))
+		rend.MaxParen = 1
+		text, _ := rend.Render(e)
+		c := &c19ConcCase{Text: []byte(text), TextQ: strconv.QuoteToASCII(text), Rounds: []int{50, 200, 2000}[rapid.IntRange(0, 2).Draw(t, "rounds")]}
+		distinct := map[string]bool{}
+		for g := rapid.IntRange(2, 8).Draw(t, "goroutines"); g > 0; g-- {
+			in := c19Indents[rapid.IntRange(0, len(c19Indents)-1).Draw(t, "indent")]
+			lv := rapid.IntRange(0, 3).Draw(t, "level")
+			c.Args, c.Levels = append(c.Args, in), append(c.Levels, lv)
+			distinct[in+"\x00"+strconv.Itoa(lv)] = true
+		}
+		c19ConcRun(t, c)
+		r.Case(text+fmt.Sprint(c.Args, c.Levels, c.Rounds), len(distinct) >= 3, map[string]interface{}{"text": c.TextQ, "indents": c.Args, "levels": c.Levels, "rounds": c.Rounds}, fmt.Sprintf("goroutines:%d", len(c.Args)))
 	})
 }
